@@ -236,6 +236,39 @@ where
     }
 }
 
+#[cfg(futures_intrusive_verif)]
+impl<MutexType: RawMutex, T> GenericOneshotBroadcastChannel<MutexType, T>
+where
+    T: Clone,
+{
+    /// Verification hook: the wait queue from head (newest) to tail (oldest).
+    pub fn verif_snapshot(&self, out: &mut [crate::verif::VerifNode]) -> usize {
+        let guard = self.inner.lock();
+        let mut n = 0;
+        guard.waiters.verif_for_each(out.len(), |node| {
+            out[n] = crate::verif::VerifNode {
+                addr: node as *const _ as usize,
+                state: match node.state {
+                    RecvPollState::Unregistered => 0,
+                    RecvPollState::Registered => 1,
+                    #[allow(unreachable_patterns)]
+                    _ => 2,
+                },
+                waker: crate::verif::waker_data(&node.task),
+                extra: 0,
+            };
+            n += 1;
+        });
+        n
+    }
+
+    /// Verification hook: plain view of the channel state.
+    pub fn verif_state(&self) -> (bool, u64, bool) {
+        let guard = self.inner.lock();
+        (guard.is_fulfilled, 0, guard.value.is_some())
+    }
+}
+
 // Export a non thread-safe version using NoopLock
 
 /// A [`GenericOneshotBroadcastChannel`] which is not thread-safe.
@@ -443,6 +476,53 @@ mod if_alloc {
                     channel: Some(self.inner.clone()),
                     wait_node: ListNode::new(RecvWaitQueueEntry::new()),
                     _phantom: PhantomData,
+                }
+            }
+        }
+
+        /// Verification hook: keeps the shared state observable after the
+        /// handles are gone.
+        #[cfg(futures_intrusive_verif)]
+        pub struct VerifBroadcastObserver<MutexType, T>
+        where
+            MutexType: RawMutex,
+            T: Clone + 'static,
+        {
+            inner: alloc::sync::Arc<
+                GenericOneshotChannelSharedState<MutexType, T>,
+            >,
+        }
+
+        #[cfg(futures_intrusive_verif)]
+        impl<MutexType, T> VerifBroadcastObserver<MutexType, T>
+        where
+            MutexType: RawMutex,
+            T: Clone,
+        {
+            /// Verification hook, see `GenericOneshotBroadcastChannel::verif_snapshot`.
+            pub fn verif_snapshot(
+                &self,
+                out: &mut [crate::verif::VerifNode],
+            ) -> usize {
+                self.inner.channel.verif_snapshot(out)
+            }
+
+            /// Verification hook, see `GenericOneshotBroadcastChannel::verif_state`.
+            pub fn verif_state(&self) -> (bool, u64, bool) {
+                self.inner.channel.verif_state()
+            }
+        }
+
+        #[cfg(futures_intrusive_verif)]
+        impl<MutexType, T> GenericOneshotBroadcastSender<MutexType, T>
+        where
+            MutexType: RawMutex,
+            T: Clone,
+        {
+            /// Verification hook: an observer of the shared state.
+            pub fn verif_observer(&self) -> VerifBroadcastObserver<MutexType, T> {
+                VerifBroadcastObserver {
+                    inner: self.inner.clone(),
                 }
             }
         }
